@@ -4,8 +4,78 @@ package harness
 
 import (
 	"bytes"
+	"encoding/json"
+	"fmt"
+	"os"
+	"path/filepath"
+	"sort"
 	"testing"
 )
+
+// transcriptDigest condenses what the property calls the outputs of a history.
+func transcriptDigest(results []*BlockResult) string {
+	s := ""
+	for _, br := range results {
+		s += fmt.Sprintf("H%d|", br.Height)
+		for _, x := range br.Txs {
+			s += fmt.Sprintf("%d:%x:%d:%d,", x.Code, x.Data, x.GasWanted, x.GasUsed)
+		}
+		for _, u := range sortedUps(br.ValUpdates) {
+			s += fmt.Sprintf("%x=%d,", u.Pub, u.Power)
+		}
+		s += fmt.Sprintf("|%x\n", br.AppHash)
+	}
+	return hx(sha([]byte(s)))
+}
+
+var c01Saved int
+
+// saveForSecondProcess stores a history with the transcript digest this process computed; the driver
+// has a second OS process (other GOMAXPROCS, TZ, GOGC, working directory) recompute and compare it.
+func saveForSecondProcess(c *Case) {
+	dir := os.Getenv("VERIF_C01_SAVE")
+	if dir == "" || c01Saved >= envInt("VERIF_C01_SAVE_N", 12) {
+		return
+	}
+	_ = os.MkdirAll(dir, 0o755)
+	d, _ := json.Marshal(transcriptDigest(c.Results))
+	c.Hist.Extra = map[string]json.RawMessage{"transcript": d}
+	if err := c.Hist.Save(filepath.Join(dir, fmt.Sprintf("%04d.json", c01Saved))); err == nil {
+		c01Saved++
+	}
+	c.Hist.Extra = nil
+}
+
+// TestC01Recheck is run by the driver in a second OS process over the histories saved by TestC01.
+func TestC01Recheck(t *testing.T) {
+	dir := os.Getenv("VERIF_C01_RECHECK")
+	if dir == "" {
+		t.Skip("driver-only")
+	}
+	st := newStats("C01")
+	defer st.write()
+	files, _ := filepath.Glob(filepath.Join(dir, "*.json"))
+	sort.Strings(files)
+	for _, f := range files {
+		h, err := LoadHistory(f)
+		if err != nil {
+			t.Fatalf("cannot load %s: %v", f, err)
+		}
+		var want string
+		_ = json.Unmarshal(h.Extra["transcript"], &want)
+		s, res, rerr := runReplica(h, nil, nil)
+		s.Close(true)
+		st.label("second_process_histories", 1)
+		if rerr != nil {
+			dumpFailure(h, "second process: "+rerr.Error())
+			t.Fatalf("C01: a second process failed to execute a history the first one executed: %v", rerr)
+		}
+		if got := transcriptDigest(res); got != want {
+			dumpFailure(h, "second process computes another transcript")
+			t.Fatalf("C01: a second OS process (GOMAXPROCS=%s TZ=%s) computes transcript %s for a history whose transcript was %s in the first process", os.Getenv("GOMAXPROCS"), os.Getenv("TZ"), got, want)
+		}
+	}
+}
 
 // C01 Replica determinism: two independently started replicas fed the same history
 // return identical tx results, validator updates and app hashes.
@@ -68,6 +138,9 @@ func TestC01(t *testing.T) {
 			st.label("nontrivial:validator_set_change", 1)
 		}
 		out.Nontrivial = multi && (contract || valchg)
+		if out.Nontrivial || c01Saved%2 == 0 {
+			saveForSecondProcess(c)
+		}
 		out.Shape = c.shape()
 		return out
 	})
